@@ -30,7 +30,7 @@ def main(argv=None) -> int:
         print(f"--- re-evaluating {prop} on the current tree ---")
         from .core import run_property
         mod = _load(prop)
-        return run_property(prop, rec.get("tier", "quick"), mod.run, mod.META)
+        return run_property(prop, rec.get("tier", "quick"), _rules(mod), mod.META)
     if cmd == "all":
         tier = argv[1] if len(argv) > 1 else "quick"
         rc = 0
@@ -49,7 +49,18 @@ def main(argv=None) -> int:
         print(f"ANALYSIS-ERROR property={prop} no check built")
         return 2
     from .core import run_property
-    return run_property(prop, tier, mod.run, mod.META)
+    return run_property(prop, tier, _rules(mod), mod.META)
+
+
+def _rules(mod):
+    """The property's rules: the robust shared rules first (run_extra: they need no property-specific anchor, so their verdicts
+    stand even when a later rule stops the analysis), then the module's own."""
+    def both(ctx):
+        extra = getattr(mod, "run_extra", None)
+        if extra is not None:
+            extra(ctx)
+        mod.run(ctx)
+    return both
 
 
 if __name__ == "__main__":
